@@ -32,6 +32,16 @@ impl Driven for D {
          _ => panic!("verif harness: unknown relation {}", rel),
       }
    }
+   fn clear(&mut self, rel: &str) {
+      match rel {
+         "e" => { self.0.e = Default::default(); },
+         "f" => { self.0.f = Default::default(); },
+         "u" => { self.0.u = Default::default(); },
+         "r0" => { self.0.r0 = Default::default(); },
+         "r1" => { self.0.r1 = Default::default(); },
+         _ => panic!("verif harness: unknown relation {}", rel),
+      }
+   }
    fn run(&mut self) { self.0.run(); }
    fn dump(&self) -> Value {
       let mut m: Vec<(String, Value)> = vec![];
